@@ -54,6 +54,13 @@ def run(idx, rep, tier):
     # cache, whose entries must not outlive a rewrite of the file (or serve another dialect's count)
     from . import c19
     c19.r2(idx, K.as_rule(rep, "R4", keep=lambda key: "_cache_name" in key or "cache entries are tied" in key))
+    # which lines are blank / skipped / advanced over is the same for a member of a group as alone: CsvPaths.csvpath() hands its settings on
+    c08.r2(idx, K.as_rule(rep, "R2", keep=lambda key: "builds a new member" in key))
+    # `cond -> stop()/skip()/advance()` fires whenever cond holds: the when/do re-entry guard of one line must not survive into the next
+    # (a guard flag that an exception leaves set silently disables the component for the rest of the run)
+    K.guard_flags(idx, rep, "R7")
+    from . import c06 as _c06
+    _c06.reset_clears(idx, rep, "R7", classes={"Equality"})
     rep.stats["exhaustive"] = True
 
 
